@@ -1416,7 +1416,7 @@ func stableConstruct(s string) string { return nameInKey.ReplaceAllString(s, "$1
 
 func reviewedException(rule, fn, construct string) (string, bool) {
 	for _, x := range reviewedExceptions {
-		if x.rule == rule && x.fn == fn && strings.HasPrefix(stableConstruct(construct), stableConstruct(x.constructPrefix)) {
+		if x.rule == rule && (x.fn == fn || privateHelperOf(fn, x.fn)) && strings.HasPrefix(stableConstruct(construct), stableConstruct(x.constructPrefix)) {
 			if x.premise != nil {
 				key := x.rule + x.fn + x.constructPrefix
 				res, done := premiseMemo[key]
@@ -1889,4 +1889,31 @@ func (e *e3) classD4(rule string, fns []*ssa.Function) {
 			}
 		}
 	}
+}
+
+// privateHelperOf: the function named helper (short name) is called from exactly one place, directly or
+// through further such helpers, inside the function named owner: code moved out of owner keeps owner's
+// reviewed exceptions.
+func privateHelperOf(helper, owner string) bool {
+	p := exceptionProgram
+	if p == nil || helper == owner {
+		return false
+	}
+	var hf *ssa.Function
+	for _, fn := range p.allRepoFuncs() {
+		if shortFn(fn) == helper {
+			hf = fn
+		}
+	}
+	for lvl := 0; hf != nil && lvl < 3; lvl++ {
+		site := uniqueCallSite(hf)
+		if site == nil {
+			return false
+		}
+		hf = site.Parent()
+		if shortFn(hf) == owner {
+			return true
+		}
+	}
+	return false
 }
